@@ -36,6 +36,8 @@ def natural_matrix(ctx):
         dict(label="barhole/psi=0/long", dev="barhole", field=0.7, current=5.0, steps=40, ramp=None, terminal_psi=[0.0, 0.0]),
         dict(label="bar/psi=None/fast-ramp/screening", dev="bar", field=0.5, current=2.0, steps=4, ramp=dict(r1=0.5, T1=1e9),
              terminal_psi="none", screening=True, screening_tol=1e-2),
+        # terminals that cover only part of a straight side (their polygons end in the middle of a boundary edge)
+        dict(label="cross/psi=0/partial-side terminals", dev="cross", field=0.5, current=0.0, steps=6, ramp=None, terminal_psi=[0.0, 0.0]),
         dict(label="film/no-terminals", dev="film", field=0.6, current=0.0, steps=6, ramp=None, terminal_psi=[0.0, 0.0]),
     ]
     # adaptive steps with refusals: the value must hold after EVERY accepted Euler step, retried or not
